@@ -209,6 +209,12 @@ class _Jac(LinearOperator):
         return res  # (..., nin)
 
     def __param_tensors_unchanged(self):
+        # the graph recorded at construction is only used for products that do not
+        # record a graph themselves: a differentiable product gets a graph of its
+        # own, so that the caller's backward pass through it cannot free the one
+        # kept here (and with it every later product of this operator)
+        if torch.is_grad_enabled():
+            return False
         return [id(param) for param in self.params_tensor] == self.id_params_tensor and \
                [id(param) for param in self.objparams] == self.id_objparams_tensor
 
